@@ -8,7 +8,7 @@ from roles import direct_sites, callee_body, RE_STREAM_POLL_NEXT
 
 def cursor_events(ctx, R, b):
     """Per feasible path: list of events ("P", outcome) inner poll, ("ADV",) cursor advanced/wrapped, ("REM",) group
-    removed, ("RET", kind)."""
+    removed, ("BACK",) the removed group pushed back into the vector, ("RET", kind)."""
     fl = ctx.flow(b)
     inner = [(bb, t) for bb, t, fn in b.calls() if fn and not b.is_cleanup(bb)
              and re.search(RE_STREAM_POLL_NEXT, fn["def"]) and callee_body(ctx.facts, fn) is not None]
@@ -33,7 +33,14 @@ def cursor_events(ctx, R, b):
             k = is_inc_of(v, cur_field)
             if (k is not None and k >= 1) or (v[0] == "const" and v[2] == "0"):
                 adv_blocks[bb] = "inc" if k else "wrap"
-    rem_blocks = {bb for bb, t, fn in direct_sites(b, r"alloc::vec::Vec::<.*>::(remove|swap_remove)$")}
+    rem_sites = direct_sites(b, r"alloc::vec::Vec::<.*>::(remove|swap_remove)$")
+    rem_blocks = {bb for bb, t, fn in rem_sites}
+    # the removed (exhausted) group put back into the vector
+    back_blocks = set()
+    for bb, t, fn in direct_sites(b, r"alloc::vec::Vec::<.*>::(push|insert)$"):
+        v = fl.operand_expr(t["args"][-1])
+        if v[0] == "call" and v[3] in rem_blocks:
+            back_blocks.add(bb)
     dest = place_str(it["dest"])
     out = []
     from adapters import classify_poll
@@ -55,6 +62,8 @@ def cursor_events(ctx, R, b):
                 ev.append(("ADV", adv_blocks[bb], i))
             if bb in rem_blocks:
                 ev.append(("REM", None, i))
+            if bb in back_blocks:
+                ev.append(("BACK", None, i))
         # kind of the value returned on this path
         rk = None
         for bb in reversed(path):
